@@ -29,7 +29,7 @@ modifier, write, unlink — for every state, index, close flag and origin status
 theorem facts_handle_action_order_is_the_models (sd : Bool) (s : St) (i c : Nat) (rc : Bool) (st : Nat) (cl : Bool) :
     (handleX sd s i c rc .pass .pass (.ok st cl)).1.map kind = linearise ["unlink"] (project actionTable handle) := by
   have h : linearise ["unlink"] (project actionTable handle) = ["read", "link", "reqmod", "upstream", "resmod", "write", "unlink"] := by decide
-  rw [h]; simp [handleX, pre, rqErr, rqSkip, kind]
+  rw [h]; simp [handleX, pre, rqErr, rqSkip, rsErr, kind]
 
 /-- After the request modifier: an error only adds a Warning (no return in that branch), then the
 hijack check returns without touching the connection, and only then the round trip starts. The
